@@ -151,7 +151,7 @@ def run(tier, seed, build=True):
             for bsz in bszs:
                 if bsz != 65536 and not wraps(seq):
                     continue
-                if bsz != 65536 and (data.startswith(b"# log opened") or (quick and cont == "bz2")):
+                if bsz != 65536 and data.startswith(b"# log opened"):
                     continue      # a first stamped line outside block zero is C02/C12's known finding, judged there
                 for (a, b) in (wins if bsz == 65536 else wins[:1]):
                     args = ["--color", "never", "-u", "-d", DTFMT, "-t=" + tzs_, "--blocksz", str(bsz)]
